@@ -169,8 +169,11 @@ def splice(text, metas, contracts, unit_name):
     # remove unused markers
     text = re.sub(r"^[ \t]*__rws_pt!\([A-Za-z0-9_]+\);[ \t]*\n", "", text, flags=re.M)
     left = re.findall(r"__rws_(?:pt|loop|iter)!\([^)]*\)", text)
+    # for-loops without a contract: drop the iterator marker (terminated by the loop marker of the same ordinal)
+    text = re.sub(r"__rws_iter!\(\s*(\d+),\s*(.*?)\)(\s*\{\s*)__rws_loop!\(\1\);[ \t]*\n", r"\2\3", text, flags=re.S)
     text = re.sub(r"^[ \t]*__rws_loop!\(\d+\);[ \t]*\n", "", text, flags=re.M)
-    text = re.sub(r"__rws_iter!\(\s*\d+,\s*(.*?)\)(\s*\{)", r"\1\2", text, flags=re.S)
+    if "__rws_iter!" in text or "__rws_loop!" in text or "__rws_pt!" in text:
+        raise Undecided("extraction markers left in generated text of unit %s" % unit_name)
     return text
 
 
@@ -236,6 +239,8 @@ def _splice_fn(seg, m, c):
                 if not itpat.search(body):
                     raise Undecided("LOST-ANCHOR: for-loop %d not found in %s" % (k, m["name"]))
                 body = itpat.sub(lambda mo: "%s: %s%s" % (lp["iter"], mo.group(1), mo.group(2)), body, count=1)
+            else:
+                body = itpat.sub(lambda mo: "%s%s" % (mo.group(1), mo.group(2)), body, count=1)
             lpat = re.compile(r"\{\s*__rws_loop!\(%d\);[ \t]*\n" % k)
             if not lpat.search(body):
                 raise Undecided("LOST-ANCHOR: loop %d not found in %s" % (k, m["name"]))
